@@ -783,13 +783,15 @@ func (sc *serverConn) closeStream(st *stream, err error) {
 	}
 	delete(sc.streams, st.id)
 	if p := st.body; p != nil {
+		p.CloseWithError(err)
 		// The peer has debited its session window for the request body
-		// bytes that are still buffered and will now be discarded: return
-		// them, the handler will never read them.
-		if n := p.Len(); n > 0 {
+		// bytes that are still buffered and are discarded here: return
+		// them, the handler will never read them. Counting and discarding
+		// is one step: a handler Read in between would take bytes that
+		// were already returned and have them returned again (noteBodyRead).
+		if n := p.Discard(); n > 0 {
 			sc.sendWindowUpdate(nil, n)
 		}
-		p.CloseWithError(err)
 		p.Release(&fixBufferPool)
 	}
 	st.cw.Close() // signals Handler's CloseNotifier, unblocks writes, etc
